@@ -50,4 +50,10 @@ CASES = [
                     ("q2", "additive read-only accessors and trait impls (get, param, AsRef, Display, IntoIterator)"),
                     ("q3", "items reordered / regrouped within files, two impl blocks merged"),
                     ("q4", "Self:: paths, dropped turbofish and annotations, function values instead of closures"))
+] + [
+    {"id": "benign8-%s" % m, "props": ALL, "expect": "quiet", "patches": [("selftest/benign/%s.diff" % m, False)], "note": what}
+    for m, what in (("r1", "iana: table-driven from_i64 (const ALL + find) with an early return, shared private-use predicate, 21 new registry entries"),
+                    ("r2", "common: Ord impls through helpers / a borrowed sort key, label codecs through a shared narrowing helper, named intermediates"),
+                    ("r3", "util: extractors generated by a macro as `match`, explicit loop in the convert helper, builder macros rebinding self"),
+                    ("r4", "sign / mac / encrypt: creating methods with locals and a spelled-out `?`, as_slice / as_deref views, matches! context guards"))
 ]
